@@ -17,10 +17,15 @@ EXIT_OK, EXIT_VIOLATION, EXIT_INCONCLUSIVE = 0, 1, 3
 
 def run_one(mod, prop, item):
     """run one instance in this process; exceptions of the real code become verdicts"""
-    from rv.sx2smt import Unsupported, HarnessError, RockitRaised
+    from rv.sx2smt import Unsupported, HarnessError, RockitRaised, DimMismatch
     t0 = time.time()
     try:
         res = mod.run(item)
+    except DimMismatch as e:
+        res = {'status': 'violation', 'violations': [{
+            'property': prop.upper(), 'key': 'dimension-mismatch|%s' % (item['cfg'].method if 'cfg' in item else item.get('kind', '')),
+            'label': 'number of variables/parameters', 'detail': 'two real transcriptions that must be the same problem differ in size: %s (%s)' % (e, item.get('history', item.get('when', ''))),
+            'cfg': repr(item.get('cfg')), 'spec': repr(item.get('spec'))[:600]}]}
     except RockitRaised as e:
         loc = str(e).split('|')[0]
         if item.get('may_raise'):
